@@ -120,6 +120,7 @@ def check_property(prop, tier='quick', seed=0, write_lock=False, only=None):
     rng = random.Random(seed)
     os.makedirs(os.path.join(HERE, 'replays', prop), exist_ok=True)
     new_lock = []
+    fragile_list = []
 
     # ---- cross-check of cover models on the real interpreter
     xjobs = []
@@ -187,7 +188,14 @@ def check_property(prop, tier='quick', seed=0, write_lock=False, only=None):
                     for b, n in o['by'].items():
                         urec['discharged_by'][b] = urec['discharged_by'].get(b, 0) + n
                         disch_by[b] = disch_by.get(b, 0) + n
-                    new_lock.append(oid)
+                    # lock only what is robustly discharged: not the `no-exception` of a spurious path, and not an
+                    # obligation whose slowest instance needed more than 40 % of the per-query budget
+                    tmo = u.opts.get('timeout_ms', 60000 if tier == 'quick' else 300000) / 1000.0
+                    fragile = o.get('max_secs', 0.0) > 0.4 * tmo
+                    if oname != 'no-exception' and not fragile:
+                        new_lock.append(oid)
+                    elif fragile:
+                        fragile_list.append(oid)
                 continue
             # --- not fully proved
             confirmed = None
@@ -221,7 +229,7 @@ def check_property(prop, tier='quick', seed=0, write_lock=False, only=None):
                 json.dump(dict(property=prop, obligation=oid, unit=u.uid, inputs=inp, how=how, solver=o['witness'],
                                observed=c, replay_cmd=f"./check replay replays/{prop}/{_safe(oid)}.json"), open(path, 'w'), indent=1)
                 violations.append((oid, path, True))
-            elif oid in locked:
+            elif oid in locked and oname != 'no-exception':
                 path = os.path.join(HERE, 'replays', prop, _safe(oid) + '.json')
                 json.dump(dict(property=prop, obligation=oid, unit=u.uid, inputs=None, how='obligation no longer discharged',
                                solver=dict(refuted=o['refuted'], undecided=o['undecided'], instances=o['instances'],
@@ -239,7 +247,7 @@ def check_property(prop, tier='quick', seed=0, write_lock=False, only=None):
                 samples.append(s)
 
     # locked obligations that did not show up at all
-    seen = set(new_lock) | {v[0] for v in violations} | {n['obligation'] for n in not_covered}
+    seen = set(new_lock) | set(fragile_list) | {v[0] for v in violations} | {n['obligation'] for n in not_covered}
     if not only:
         for oid in sorted(locked):
             if oid.endswith('::no-exception'):
@@ -302,6 +310,7 @@ def check_property(prop, tier='quick', seed=0, write_lock=False, only=None):
                   exclusions=getattr(mod, 'EXCLUSIONS', []),
                   known_findings=[l for l in kf_lines],
                   rewrites=loader.REWRITE_COUNTS if False else None,
+                  fragile_not_locked=fragile_list[:100],
                   engine_failures=engine_fail),
               assumptions=TRUSTED + [f"axiom {a}" for a in sorted(axioms)] + list(getattr(mod, 'ASSUMPTIONS', [])))
     os.makedirs(os.path.join(HERE, 'evidence'), exist_ok=True)
